@@ -883,7 +883,11 @@ def op_meta_mutate(w, a, b, c, d):
     if not pool:
         return None
     x = pool[a % len(pool)]
-    if b % 3 == 0 and isinstance(x.meta.get("cfg"), dict):
+    if b % 5 == 3:
+        x.meta.invalidate(["trace", "cfg", "analysis"][c % 3])  # mark an analysis result as stale
+    elif b % 5 == 4:
+        x.meta["analysis"] = c % 7  # (re)compute an entry: it becomes valid again
+    elif b % 3 == 0 and isinstance(x.meta.get("cfg"), dict):
         x.meta["cfg"]["k"].append(c % 5)
     else:
         x.meta["trace"].append(c % 5)
